@@ -142,6 +142,8 @@ def gen_case(world, tier, prop):
     r = rng.random()
     if r < 0.03:
       return {'novalue': 1}   # the NO_VALUE sentinel stored explicitly
+    if r < 0.07:
+      return {'list': [7]}    # equal to other such lists, never the same object
     if r < 0.45 or depth >= 2:
       return token()
     if r < 0.58 and allow_tv:
@@ -257,6 +259,9 @@ def gen_case(world, tier, prop):
   n = rng.randint(3, 16 if tier == 'thorough' else 11)
   while len(ops) < n:
     r = rng.random()
+    if rng.random() < 0.06:
+      ops.append({'op': rng.choice(['suspend_enter', 'suspend_exit'])})
+      continue
     if mode == 'C07':
       if r < 0.10:
         ops.append(new_op())
@@ -277,10 +282,16 @@ def gen_case(world, tier, prop):
         ops.append(edit_op())
       elif r < 0.62:
         ops.append(copy_op())
-      elif r < 0.76:
+      elif r < 0.70:
         ops.append({'op': rng.choice(['set_tagged', 'select_replace']),
                     'c': rng.randrange(len(fn_of)), 'tag': rng.choice(TAGS),
-                    'v': token() if rng.random() < 0.8 else {'list': [token()]}})
+                    'v': token() if rng.random() < 0.8 else {'list': [7]}})
+      elif r < 0.73:
+        # a selection object is kept and used later, after other operations
+        ops.append({'op': 'select_make', 'c': rng.randrange(len(fn_of)),
+                    'tag': rng.choice(TAGS)})
+      elif r < 0.76:
+        ops.append({'op': 'select_use', 's': rng.randint(0, 3), 'v': token()})
       elif r < 0.88:
         ops.append({'op': 'list_tags', 'c': rng.randrange(len(fn_of)),
                     'supers': rng.random() < 0.5})
@@ -307,6 +318,8 @@ class Side:
     self.fns = fns
     self.roots = []
     self.pairs = []   # (orig_root, copy_root, deep?) for identity checks
+    self.sels = []    # kept selection objects (impl) / (root, tag) (model)
+    self.suspend = [] # entered suspend_tracking() blocks (impl only)
 
   def value(self, d):
     """Maker with {'ref': [c, n]} resolved against the live heap."""
@@ -480,9 +493,19 @@ def model_apply(S_: Side, op):
         pass
     EFFECTIVE[id(op)] = effective   # the implementation applies the same ones
     return None
-  if k in ('set_tagged', 'select_replace'):
-    root = S_.root(op)
-    T = op['tag']
+  if k in ('suspend_enter', 'suspend_exit'):
+    return None   # history tracking never influences arguments or tags
+  if k == 'select_make':
+    S_.sels.append((S_.root(op), op['tag']))
+    return None
+  if k in ('set_tagged', 'select_replace', 'select_use'):
+    if k == 'select_use':
+      if not S_.sels:
+        raise Skip()
+      root, T = S_.sels[op['s'] % len(S_.sels)]
+    else:
+      root = S_.root(op)
+      T = op['tag']
     v = S_.value(op['v'])
     # a matching tag on a *args position that holds no value: writing there
     # would leave a hole - unspecified, whichever node is visited first
@@ -501,7 +524,7 @@ def model_apply(S_: Side, op):
           if ts and matches(ts, T):
             cur = m.storage().get(key, M.NO_VALUE)
             if cur is not v:
-              if k == 'select_replace' and isinstance(v, list):
+              if k in ('select_replace', 'select_use') and isinstance(v, list):
                 raise Skip()  # replace() deep-copies per site: fresh lists
               if isinstance(key, str) or key < m.sv.P:
                 m._store(key, v)
@@ -560,6 +583,23 @@ def impl_apply(S_: Side, op):
         cfg[key] = S_.value(op['v'])
     else:
       del cfg[real_key(op['key'], fdl.VARARGS)]
+    return None
+  if k == 'suspend_enter':
+    from fiddle import history as _h
+    if len(S_.suspend) < 2:
+      cm = _h.suspend_tracking()
+      cm.__enter__()
+      S_.suspend.append(cm)
+    return None
+  if k == 'suspend_exit':
+    if S_.suspend:
+      S_.suspend.pop().__exit__(None, None, None)
+    return None
+  if k == 'select_make':
+    S_.sels.append(selectors.select(S_.root(op), tag=stubmod.TAGS[op['tag']]))
+    return None
+  if k == 'select_use':
+    S_.sels[op['s'] % len(S_.sels)].replace(S_.value(op['v']))
     return None
   if k == 'update_callable':
     from fiddle._src import mutate_buildable
@@ -735,7 +775,11 @@ def run(case):
     n_roots = len(Mo.roots)
     pre = None
     if k in ('set_tagged', 'select_replace') and I.roots:
-      pre = (enum_nodes(I.root(op)), enum_nodes(Mo.root(op)))
+      pre = (enum_nodes(I.root(op)), enum_nodes(Mo.root(op)), I.root(op), Mo.root(op), op['tag'])
+    elif k == 'select_use' and Mo.sels:
+      mroot_, tag_ = Mo.sels[op['s'] % len(Mo.sels)]
+      iroot_ = I.sels[op['s'] % len(I.sels)].cfg
+      pre = (enum_nodes(iroot_), enum_nodes(mroot_), iroot_, mroot_, tag_)
     # ---- model ----------------------------------------------------------
     try:
       mret = model_apply(Mo, op)
@@ -745,7 +789,7 @@ def run(case):
       bump(probes, 'skipped_ops')
       # model may be half-applied only for ops that validate first; Skip is
       # raised before any mutation except in set_tagged, handled below
-      if k in ('set_tagged', 'select_replace'):
+      if k in ('set_tagged', 'select_replace', 'select_use') and Mo.roots:
         res['discarded'] = 'unspecified-tag-target'
         return res
       continue
@@ -760,7 +804,7 @@ def run(case):
       raised = e
       del I.roots[n_roots:]
     if pre is not None and valid and raised is None:
-      reconcile_unreachable(pre, I.root(op), Mo.root(op), op)
+      reconcile_unreachable(pre[:2], pre[2], pre[3], dict(op, tag=pre[4]))
     after_i = C.canon(tuple(I.roots))
     after_m = C.canon(tuple(Mo.roots))
     desc = f'op #{idx} {op}'
@@ -828,7 +872,7 @@ def run(case):
           res['discarded'] = 'c03_territory'
           return res
       clause = ('copy-not-faithful' if k in COPY_OPS else
-                'frame-condition' if k in ('set_tagged', 'select_replace') else
+                'frame-condition' if k in ('set_tagged', 'select_replace', 'select_use') else
                 'state-mismatch')
       res['violations'].append(V(mode, clause,
                                  f'after {desc} (model != fiddle, joint canon of '
@@ -849,7 +893,9 @@ def run(case):
         bump(probes, 'transport_' + k)
     if k in TAG_OPS:
       bump(probes, 'tag_edits')
-    if k in ('set_tagged', 'select_replace'):
+    if k == 'select_use':
+      bump(probes, 'kept_selection_used')
+    if k in ('set_tagged', 'select_replace', 'select_use'):
       bump(probes, 'tag_broadcasts')
       if after_i != before_i:
         bump(probes, 'tag_broadcast_changed_something')
@@ -905,7 +951,11 @@ class Machine:
     return gen_case(world, tier, prop)
 
   def run(self, case):
-    return run(case)
+    try:
+      return run(case)
+    finally:
+      from fiddle import history as _h
+      _h.set_tracking(True)
 
   def shrink_candidates(self, case):
     return shrink_candidates(case)
